@@ -52,6 +52,17 @@ ILLFORMED = {
     "derived_dimension_with_unit": (["[s9] = [d0] * ua"], None),
     "system_replaces_non_root_unit": (["@system sq", "    v0:v0", "@end"], None),
     "undefined_reference": (["w9 = 2 * nosuchunit"], "w9"),
+    "empty_modifier_value": (["w10 = 2 * ua; offset:"], "w10"),
+    "empty_unit_value": (["w11 = "], "w11"),
+    "double_equal_sign": (["w12 == 3 * ua"], "w12"),
+    "empty_prefix_value": (["mega- = "], None),
+    "non_numeric_logfactor": (["w13 = 2 * ua; logbase: 10; logfactor: x"], "w13"),
+    "modifier_with_unit": (["w14 = 2 * ua; offset: 3 ub"], "w14"),
+    "dangling_operator": (["w15 = 3 * ua *"], "w15"),
+    "unbalanced_parenthesis": (["w16 = 3 * (ua"], "w16"),
+    "group_with_non_definition": (["@group gz", "    not a definition", "@end"], None),
+    "system_rule_with_three_parts": (["@system sz", "    a:b:c", "@end"], None),
+    "context_with_unparsable_line": (["@context cz", "    nonsense line", "@end"], None),
     "relation_with_unit_endpoint": (["@context cr", "    [d0] -> ua: value", "@end"], None),
 }
 
